@@ -1,0 +1,19 @@
+//go:build verif
+
+// Contracts for the "ephemeral objects follow their last user" clauses of C08, checked by
+// /verif/cmd/nsqvc. Comment-only file.
+
+package nsqd
+
+// A `go once.Do(f)` statement is recorded by ghosts (the goroutine itself is not followed): how many were
+// started and on which sync.Once.
+//@ ghost onceSpawns int
+//@ ghost onceSpawned *sync.Once
+//@ ghostgroup onceSpawns, onceSpawned
+//@ extern (*sync.Once).Do(o, f)
+//@   modifies
+//@   onspawn onceSpawns := onceSpawns + 1
+//@   onspawn onceSpawned := o
+
+// The clauses that use these ghosts are on RemoveClient (zz_contracts_kchannel_verif.go) and on
+// DeleteExistingChannel (zz_contracts_ktopic_verif.go).
